@@ -14,6 +14,21 @@
 //!   CLOUDJSONL x<key> r...          -> W:<codec> R:OK r... | W:<codec> R:ERR
 //!                                      (write_cloud_jsonl_vec, sniff the stored bytes, read_cloud_jsonl_vec)
 //!   GLOBREAD x<pat> x<key>=r,r ...  -> OK r... | ERR <kind>            (write each object, read_cloud_jsonl_glob)
+//!   CLOUDNF x<key> q<x>;<o>;<v>,... -> W:<codec> R:OK q... | W:<codec> R:ERR
+//!                                      (float-bearing records `{x: f64, o: Option<f64>, v: Vec<f32>}` given
+//!                                      structurally: a float is `f<hex of its JSON text>` | nan | pinf | ninf, `<o>`
+//!                                      may be `-`; the stream that holds the NON-FINITE values — see below)
+//!   CLOUDBIG x<key> <n> x<key2> <m> x<pat> -> W:<codec> R:OK <n> G:OK <count>
+//!                                      (one object of 1-4 MiB of incompressible strings; contents judged by the
+//!                                      oracle only, the model counts)
+//!
+//! SCOPE ASSUMPTION (checked, reported per record type): the round-trip oracle judges records JSON can carry,
+//! `from_str(to_string(r)) == r` bit for bit (`Lawful.de_ser` of `Props/C19.lean`). Every generated record is
+//! tested against every `Lawful` field on the real serde_json (`lawful:<type>:<field>=ok|VIOLATED` in the
+//! evidence, summarised in the notes). Records holding NaN / +-inf are outside JSON's value space (serde_json
+//! writes `null`, `write_cloud_jsonl_vec` returns Ok, reading fails or yields `None`): they are generated ONLY
+//! in the `CLOUDNF` stream, whose documented behaviour is compared model-vs-real and NOT judged by the
+//! round-trip oracle (the oracle there: the substitution never touches a finite value, count or order).
 //!
 //! Oracles (independent of the Lean model): expansion == keys accepted by a reference matcher written here
 //! from the documented syntax (`*` within a segment, `?` one character, `**` anything, other characters
@@ -21,7 +36,12 @@
 //! (recorded by the store wrapper) and with the helper's return value; exactly one listing per expansion;
 //! read-back == written (four record types); the stored object carries the codec that the key's extension
 //! names (table of documented extensions, ASCII-case-insensitive suffix test — not the writer's chain);
-//! glob read == concatenation in sorted key order.
+//! glob read == concatenation in sorted key order; the stored object, decoded by the codec crate itself (flate2 /
+//! zstd / bzip2 / xz2, not ironbeam's `compression`), is the JSONL text of the records (`…-stored-object-wrong`:
+//! a write-side defect is told apart from a read-side one); float-bearing records (`f64`, `Option<f64>`,
+//! `Vec<f32>`: every finite kind incl. `-0.0`, subnormals, extremes, arbitrary bit patterns) compared BIT FOR BIT;
+//! one object of 2 MiB (quick) / 4 MiB (thorough) of incompressible text per codec and plain, written, read and
+//! read by glob (`cloud-jsonl-large-object-*`).
 //! `**` is "any text" and the `/` around it are ordinary characters (`a/**/b` accepts `a//b`, not `a/b`) — the
 //! reading of the property statement; see `Props/C19.lean` ("how `**` is read").
 
@@ -33,6 +53,7 @@ use ironbeam::io::cloud::readers::{
 use ironbeam::io::cloud::{CloudResult, FakeObjectIO, ObjectIO, ObjectMetadata};
 use serde::{Deserialize, Serialize};
 use std::collections::{BTreeMap, BTreeSet};
+use std::io::Read;
 use std::sync::{Arc, Mutex};
 
 const B: &str = "bkt";
@@ -312,22 +333,157 @@ enum Rec2 {
     S { m: BTreeMap<String, u64>, u: () },
 }
 
+/// a float-bearing record: compared BIT FOR BIT (`-0.0 == 0.0` and `NaN != NaN` under `PartialEq`)
+#[derive(Serialize, Deserialize, Clone, Debug)]
+struct RecF {
+    x: f64,
+    o: Option<f64>,
+    v: Vec<f32>,
+}
+impl RecF {
+    fn finite(&self) -> bool {
+        self.x.is_finite() && self.o.is_none_or(f64::is_finite) && self.v.iter().all(|f| f.is_finite())
+    }
+    /// `from_str(to_string(self))` is an `Ok`: every float outside an `Option` is finite
+    fn readable(&self) -> bool {
+        self.x.is_finite() && self.v.iter().all(|f| f.is_finite())
+    }
+}
+
 /// what a record type must offer to be written, read back and compared
-trait Record: Serialize + serde::de::DeserializeOwned + Clone + PartialEq + std::fmt::Debug {
+trait Record: Serialize + serde::de::DeserializeOwned + Clone + std::fmt::Debug {
     const NAME: &'static str;
+    /// the same value (bit-exact on floats)
+    fn same(&self, other: &Self) -> bool;
 }
 impl Record for Rec {
     const NAME: &'static str = "struct";
+    fn same(&self, o: &Self) -> bool {
+        self == o
+    }
 }
 impl Record for Rec2 {
     const NAME: &'static str = "enum";
+    fn same(&self, o: &Self) -> bool {
+        self == o
+    }
 }
 /// top-level JSON scalars / arrays as records: `"text"`, `null`, `[1,2]`
 impl Record for String {
     const NAME: &'static str = "string";
+    fn same(&self, o: &Self) -> bool {
+        self == o
+    }
 }
 impl Record for Option<Vec<i64>> {
     const NAME: &'static str = "option-vec";
+    fn same(&self, o: &Self) -> bool {
+        self == o
+    }
+}
+impl Record for RecF {
+    const NAME: &'static str = "float-struct";
+    fn same(&self, o: &Self) -> bool {
+        self.x.to_bits() == o.x.to_bits()
+            && self.o.map(f64::to_bits) == o.o.map(f64::to_bits)
+            && self.v.len() == o.v.len()
+            && self.v.iter().zip(&o.v).all(|(a, b)| a.to_bits() == b.to_bits())
+    }
+}
+/// a bare float as a record (`1.5`, `-0.0`, `5e-324`)
+impl Record for f64 {
+    const NAME: &'static str = "f64";
+    fn same(&self, o: &Self) -> bool {
+        self.to_bits() == o.to_bits()
+    }
+}
+
+fn same_vec<T: Record>(a: &[T], b: &[T]) -> bool {
+    a.len() == b.len() && a.iter().zip(b).all(|(x, y)| x.same(y))
+}
+
+/// `char::is_whitespace` is what `str::trim` uses
+fn blank(s: &str) -> bool {
+    s.trim().is_empty()
+}
+
+/// The hypotheses of the round-trip theorems (`Props/C19.lean::Lawful`) tested on ONE value with the real
+/// serde_json, outside ironbeam; counted per record type and field. Returns the violated fields.
+fn validate_lawful<T: Record>(cx: &mut Ctx, r: &T) -> Vec<&'static str> {
+    let mut bad = vec![];
+    let text = match serde_json::to_string(r) {
+        Ok(t) => t,
+        Err(_) => {
+            cx.count(&format!("lawful:{}:ser=ERROR", T::NAME));
+            return vec!["ser"];
+        }
+    };
+    let checks: [(&'static str, bool); 4] = [
+        ("ser_no_nl", !text.contains('\n')),
+        ("ser_no_cr", !text.ends_with('\r')),
+        ("ser_not_blank", !blank(&text)),
+        ("de_ser", serde_json::from_str::<T>(&text).is_ok_and(|b| b.same(r))),
+    ];
+    for (f, ok) in checks {
+        cx.count(&format!("lawful:{}:{f}={}", T::NAME, if ok { "ok" } else { "VIOLATED" }));
+        if !ok {
+            bad.push(f);
+        }
+    }
+    bad
+}
+
+/// decoders of the codec crates themselves (not ironbeam's `compression` module): what the stored bytes say
+fn indep_decode(codec: &str, bytes: &[u8]) -> Option<Vec<u8>> {
+    let mut out = vec![];
+    let ok = match codec {
+        "plain" => {
+            out.extend_from_slice(bytes);
+            true
+        }
+        "gzip" => flate2::read::MultiGzDecoder::new(bytes).read_to_end(&mut out).is_ok(),
+        "zstd" => zstd::stream::read::Decoder::new(bytes).and_then(|mut d| d.read_to_end(&mut out)).is_ok(),
+        "bzip2" => bzip2::read::MultiBzDecoder::new(bytes).read_to_end(&mut out).is_ok(),
+        "xz" => xz2::read::XzDecoder::new_multi_decoder(bytes).read_to_end(&mut out).is_ok(),
+        _ => false,
+    };
+    ok.then_some(out)
+}
+
+/// the JSONL text the writer is documented to produce: each element on one line, followed by `\n`
+fn expected_text<T: Serialize>(recs: &[T]) -> Vec<u8> {
+    let mut v = vec![];
+    for r in recs {
+        serde_json::to_writer(&mut v, r).unwrap();
+        v.push(b'\n');
+    }
+    v
+}
+
+/// the stored object, decoded by the codec crate itself, is the JSONL text of the records
+/// (= `dec_enc` of the codec + the writer put ALL of the text through the encoder and finished it)
+fn check_stored<T: Serialize>(cx: &mut Ctx, case: usize, sig: &str, key: &str, wc: &str, stored: Option<&Vec<u8>>, recs: &[T]) {
+    let Some(bytes) = stored else { return };
+    if wc != doc_codec(key) {
+        return; // already reported as `cloud-jsonl-writer-ignores-extension`
+    }
+    let want = expected_text(recs);
+    match indep_decode(wc, bytes) {
+        Some(got) if got == want => cx.count(&format!("lawful:codec:{wc}:stored-decodes-to-written-text=ok")),
+        Some(got) => {
+            cx.count(&format!("lawful:codec:{wc}:stored-decodes-to-written-text=VIOLATED"));
+            cx.oracle_fail(case, sig, format!("key {key:?} ({wc}): the stored object decodes (by the codec crate itself) to {} bytes, the {} records are {} bytes of JSONL{}", got.len(), recs.len(), want.len(),
+                match got.iter().zip(&want).position(|(a, b)| a != b) { Some(p) => format!(", first difference at byte {p}"), None => String::new() }));
+        }
+        None => {
+            cx.count(&format!("lawful:codec:{wc}:stored-decodes-to-written-text=VIOLATED"));
+            cx.oracle_fail(case, sig, format!("key {key:?} ({wc}): the stored object ({} bytes) is not a complete {wc} stream", bytes.len()));
+        }
+    }
+    if wc == "plain" {
+        // `magic_plain`: uncompressed JSONL carries no compression signature
+        cx.count(&format!("lawful:codec:plain:magic_plain={}", if sniff(bytes) == "plain" { "ok" } else { "VIOLATED" }));
+    }
 }
 
 fn rec_tok<T: Serialize>(r: &T) -> String {
@@ -394,6 +550,10 @@ fn ext_case_variants() -> Vec<String> {
 }
 
 fn one_jsonl<T: Record>(cx: &mut Ctx, key: &str, recs: &[T]) {
+    let mut violated: Vec<&'static str> = vec![];
+    for r in recs {
+        violated.extend(validate_lawful(cx, r));
+    }
     let st = FakeObjectIO::new();
     let w = guarded(|| write_cloud_jsonl_vec(&st, B, key, recs).map_err(|e| format!("{:?}", e.kind)));
     let stored = st.get_object(B, key).ok();
@@ -430,29 +590,217 @@ fn one_jsonl<T: Record>(cx: &mut Ctx, key: &str, recs: &[T]) {
     if wc != doc_codec(key) {
         cx.oracle_fail(i, "cloud-jsonl-writer-ignores-extension", format!("key {key:?}: stored object is {wc}, the extension names {}", doc_codec(key)));
     }
+    check_stored(cx, i, "cloud-jsonl-stored-object-wrong", key, &wc, stored.as_ref(), recs);
     match &r {
-        Ok(Ok(v)) if v.as_slice() == recs => {}
+        Ok(Ok(v)) if same_vec(v, recs) => {}
         other => {
             let sig = "cloud-jsonl-roundtrip-fails";
-            cx.oracle_fail(i, sig, format!("key {key:?}, {} records written ({wc}); read back: {}", recs.len(), match other {
-                Ok(Ok(v)) => format!("{} different records", v.len()),
+            violated.sort_unstable();
+            violated.dedup();
+            cx.oracle_fail(i, sig, format!("key {key:?}, {} records of type {} written ({wc}); read back: {}{}", recs.len(), T::NAME, match other {
+                Ok(Ok(v)) => format!("{} records, first difference at index {:?}", v.len(), v.iter().zip(recs).position(|(a, b)| !a.same(b))),
                 Ok(Err(k)) => format!("Err({k})"),
                 Err(m) => format!("panic {m}"),
-            }));
+            }, if violated.is_empty() { String::new() } else { format!(" [serde_json alone violates {violated:?} on these records]") }));
         }
     }
 }
 
-fn one_read(cx: &mut Ctx, pat: &str, objs: &[(String, Vec<Rec>)]) {
+// ---- float-bearing records given structurally; the stream that holds the non-finite values ----------------
+fn ftok64(x: f64) -> String {
+    if x.is_nan() { "nan".into() } else if x == f64::INFINITY { "pinf".into() } else if x == f64::NEG_INFINITY { "ninf".into() } else { format!("f{}", hex(serde_json::to_string(&x).unwrap().as_bytes())) }
+}
+fn ftok32(x: f32) -> String {
+    if x.is_nan() { "nan".into() } else if x == f32::INFINITY { "pinf".into() } else if x == f32::NEG_INFINITY { "ninf".into() } else { format!("f{}", hex(serde_json::to_string(&x).unwrap().as_bytes())) }
+}
+fn frec_tok(r: &RecF) -> String {
+    format!("q{};{};{}", ftok64(r.x), r.o.map_or("-".to_string(), ftok64), r.v.iter().map(|f| ftok32(*f)).collect::<Vec<_>>().join(","))
+}
+
+fn one_nf(cx: &mut Ctx, key: &str, recs: &[RecF]) {
+    let all_finite = recs.iter().all(RecF::finite);
+    if all_finite {
+        for r in recs {
+            validate_lawful(cx, r);
+        }
+    } else {
+        // outside the scope: counted, not validated as `Lawful`
+        for r in recs {
+            cx.count(if r.finite() { "nf:record=finite" } else if r.readable() { "nf:record=nonfinite-only-behind-option" } else { "nf:record=nonfinite-in-f64-or-vec" });
+            if !r.finite() {
+                // the record is outside the scope BECAUSE serde_json alone does not return it: confirmed per record
+                let back = serde_json::to_string(r).ok().and_then(|t| serde_json::from_str::<RecF>(&t).ok());
+                cx.count(if back.is_some_and(|b| b.same(r)) { "scope:float-struct:nonfinite-record:de_ser=holds (UNEXPECTED)" } else { "scope:float-struct:nonfinite-record:de_ser=violated by serde_json alone (why it is out of scope)" });
+            }
+        }
+    }
+    let st = FakeObjectIO::new();
+    let w = guarded(|| write_cloud_jsonl_vec(&st, B, key, recs).map_err(|e| format!("{:?}", e.kind)));
+    let stored = st.get_object(B, key).ok();
+    let wc = match (&w, &stored) {
+        (Ok(Ok(_)), Some(b)) => sniff(b).to_string(),
+        (Ok(Err(k)), _) => format!("ERR-{k}"),
+        _ => "PANIC".into(),
+    };
+    let r = guarded(|| read_cloud_jsonl_vec::<RecF, _>(&st, B, key).map_err(|e| format!("{:?}", e.kind)));
+    let mut ans = format!("W:{wc} ");
+    match &r {
+        Ok(Ok(v)) => {
+            ans.push_str("R:OK");
+            for x in v {
+                ans.push(' ');
+                ans.push_str(&frec_tok(x));
+            }
+        }
+        Ok(Err(_)) => ans.push_str("R:ERR"),
+        Err(_) => ans.push_str("R:PANIC"),
+    }
+    let mut req = format!("CLOUDNF {}", xs(key));
+    for x in recs {
+        req.push(' ');
+        req.push_str(&frec_tok(x));
+    }
+    let i = cx.case(req, ans, !recs.is_empty());
+    cx.count(&format!("nf:codec={wc}"));
+    if wc != doc_codec(key) {
+        cx.oracle_fail(i, "cloud-jsonl-writer-ignores-extension", format!("key {key:?}: stored object is {wc}, the extension names {}", doc_codec(key)));
+    }
+    check_stored(cx, i, "cloud-jsonl-stored-object-wrong", key, &wc, stored.as_ref(), recs);
+    if matches!(w, Err(_)) || matches!(r, Err(_)) {
+        cx.oracle_fail(i, "cloud-jsonl-panics", format!("key {key:?}: write {w:?}"));
+        return;
+    }
+    if all_finite {
+        cx.count("nf:vector=all-finite(round-trip oracle applies)");
+        if !matches!(&r, Ok(Ok(v)) if same_vec(v, recs)) {
+            cx.oracle_fail(i, "cloud-jsonl-roundtrip-fails", format!("key {key:?}, {} finite float records written ({wc}); read back: {}", recs.len(), match &r {
+                Ok(Ok(v)) => format!("{} records, first difference at index {:?}", v.len(), v.iter().zip(recs).position(|(a, b)| !a.same(b))),
+                Ok(Err(k)) => format!("Err({k})"),
+                Err(m) => format!("panic {m}"),
+            }));
+        }
+        return;
+    }
+    // documented behaviour outside the scope (NOT judged): write Ok; read Err when a non-finite value sits where a
+    // float is required, else Ok with the non-finite `Some` turned into `None`. Counted as observed:
+    let expect_err = recs.iter().any(|r| !r.readable());
+    cx.count(match (&r, expect_err) {
+        (Ok(Err(_)), true) => "nf:vector=nonfinite, read Err (as documented)",
+        (Ok(Ok(_)), false) => "nf:vector=nonfinite only behind Option, read Ok with None (as documented)",
+        (Ok(Ok(_)), true) => "nf:vector=nonfinite, read Ok (NOT as documented)",
+        _ => "nf:vector=nonfinite only behind Option, read Err (NOT as documented)",
+    });
+    // judged: whatever happens to the non-finite values, a FINITE value, the count and the order are never changed
+    if let Ok(Ok(v)) = &r {
+        let finite_kept = v.len() == recs.len()
+            && v.iter().zip(recs).all(|(a, b)| {
+                (!b.x.is_finite() || a.x.to_bits() == b.x.to_bits())
+                    && (match b.o { Some(f) if f.is_finite() => a.o.map(f64::to_bits) == Some(f.to_bits()), None => a.o.is_none(), _ => true })
+                    && a.v.len() == b.v.len()
+                    && a.v.iter().zip(&b.v).all(|(p, q)| !q.is_finite() || p.to_bits() == q.to_bits())
+            });
+        if !finite_kept {
+            cx.oracle_fail(i, "cloud-jsonl-nonfinite-record-corrupts-finite-data", format!("key {key:?}: {} records written, {} read; a finite value, the count or the order changed", recs.len(), v.len()));
+        }
+    }
+}
+
+// ---- one LARGE object: contents judged by the oracle only ----------------------------------------------------
+fn one_big(cx: &mut Ctx, ext: &str, recs: &[Rec]) {
+    let key = format!("big/part-0{ext}");
+    let key2 = format!("big/part-1{ext}");
+    let small = vec![Rec { id: 1, s: "tail".into(), tags: vec![], o: None }, Rec { id: 2, s: "".into(), tags: vec!["x".into()], o: Some(0) }];
+    let pat = "big/part-*";
+    let st = empty_bucket();
+    let w = guarded(|| write_cloud_jsonl_vec(&st, B, &key, recs).map_err(|e| format!("{:?}", e.kind)));
+    let _ = guarded(|| write_cloud_jsonl_vec(&st, B, &key2, &small));
+    let stored = st.get_object(B, &key).ok();
+    let wc = match (&w, &stored) {
+        (Ok(Ok(_)), Some(b)) => sniff(b).to_string(),
+        (Ok(Err(k)), _) => format!("ERR-{k}"),
+        _ => "PANIC".into(),
+    };
+    let r = guarded(|| read_cloud_jsonl_vec::<Rec, _>(&st, B, &key).map_err(|e| format!("{:?}", e.kind)));
+    let g = guarded(|| read_cloud_jsonl_glob::<Rec, _>(&st, B, pat).map_err(|e| format!("{:?}", e.kind)));
+    let part = |tag: &str, r: &Result<Result<Vec<Rec>, String>, String>| match r {
+        Ok(Ok(v)) => format!("{tag}:OK {}", v.len()),
+        Ok(Err(k)) if tag == "G" => format!("G:ERR {k}"),
+        Ok(Err(_)) => format!("{tag}:ERR"),
+        Err(_) => format!("{tag}:PANIC"),
+    };
+    let ans = format!("W:{wc} {} {}", part("R", &r), part("G", &g));
+    let i = cx.case(format!("CLOUDBIG {} {} {} {} {}", xs(&key), recs.len(), xs(&key2), small.len(), xs(pat)), ans, true);
+    let raw = expected_text(recs).len();
+    let stored_len = stored.as_ref().map_or(0, Vec::len);
+    cx.count(&format!("big:codec={wc}"));
+    cx.count_n(&format!("big:jsonl-bytes:{wc}"), raw as u64);
+    cx.count_n(&format!("big:stored-bytes:{wc}"), stored_len as u64);
+    if wc != doc_codec(&key) {
+        cx.oracle_fail(i, "cloud-jsonl-writer-ignores-extension", format!("key {key:?}: stored object is {wc}, the extension names {}", doc_codec(&key)));
+    }
+    check_stored(cx, i, "cloud-jsonl-large-object-stored-wrong", &key, &wc, stored.as_ref(), recs);
+    let describe = |r: &Result<Result<Vec<Rec>, String>, String>, want: &[Rec]| match r {
+        Ok(Ok(v)) => format!("{} records (expected {}), first difference at index {:?}", v.len(), want.len(), v.iter().zip(want).position(|(a, b)| a != b)),
+        Ok(Err(k)) => format!("Err({k})"),
+        Err(m) => format!("panic {m}"),
+    };
+    if !matches!(&r, Ok(Ok(v)) if v.as_slice() == recs) {
+        cx.oracle_fail(i, "cloud-jsonl-large-object-roundtrip-fails", format!("key {key:?}: {} records, {raw} bytes of JSONL, {stored_len} bytes stored ({wc}); read back: {}", recs.len(), describe(&r, recs)));
+    }
+    let mut both = recs.to_vec();
+    both.extend(small.iter().cloned());
+    if !matches!(&g, Ok(Ok(v)) if *v == both) {
+        cx.oracle_fail(i, "cloud-jsonl-large-object-glob-read-fails", format!("pattern {pat:?} over {key:?} ({raw} bytes of JSONL) and {key2:?}: {}", describe(&g, &both)));
+    }
+}
+
+/// records whose JSONL text is about `target` bytes of high-entropy text: mostly 64-symbol random strings of
+/// 1-16 KiB (6 bits per byte: every codec still stores more than 70 % of it), multi-byte characters, escapes,
+/// and one single line of about a tenth of the whole
+fn gen_big_recs(cx: &mut Ctx, target: usize) -> Vec<Rec> {
+    const A: &[u8; 64] = b"ABCDEFGHIJKLMNOPQRSTUVWXYZabcdefghijklmnopqrstuvwxyz0123456789+/";
+    fn rand_str(cx: &mut Ctx, n: usize) -> String {
+        let mut s = String::with_capacity(n + 8);
+        while s.len() < n {
+            let mut w = cx.rng.next_u64();
+            for _ in 0..10 {
+                s.push(A[(w & 63) as usize] as char);
+                w >>= 6;
+            }
+            if w & 15 == 0 {
+                s.push_str(["é", "日", "𝄞", "\n", "\"", "\\", "\u{85}", " "][(w >> 4) as usize & 7]);
+            }
+        }
+        s
+    }
+    let mut recs = vec![];
+    let mut total = 0usize;
+    let long = target / 10;
+    let mut long_done = false;
+    while total < target {
+        let n = if !long_done && total > target / 3 {
+            long_done = true;
+            long
+        } else {
+            1024 + cx.rng.below(15 * 1024)
+        };
+        let r = Rec { id: recs.len() as i64, s: rand_str(cx, n), tags: if cx.rng.chance(1, 4) { vec![rand_str(cx, 40)] } else { vec![] }, o: None };
+        total += n + 40;
+        recs.push(r);
+    }
+    recs
+}
+
+fn one_read<T: Record>(cx: &mut Ctx, pat: &str, objs: &[(String, Vec<T>)]) {
     let st = empty_bucket();
     let mut req = format!("GLOBREAD {}", xs(pat));
-    let mut last: std::collections::BTreeMap<String, Vec<Rec>> = Default::default();
+    let mut last: std::collections::BTreeMap<String, Vec<T>> = Default::default();
     for (k, rs) in objs {
         let _ = guarded(|| write_cloud_jsonl_vec(&st, B, k, rs));
         last.insert(k.clone(), rs.clone());
         req.push_str(&format!(" {}={}", xs(k), rs.iter().map(rec_tok).collect::<Vec<_>>().join(",")));
     }
-    let r = guarded(|| read_cloud_jsonl_glob::<Rec, _>(&st, B, pat).map_err(|e| format!("{:?}", e.kind)));
+    let r = guarded(|| read_cloud_jsonl_glob::<T, _>(&st, B, pat).map_err(|e| format!("{:?}", e.kind)));
     let ans = match &r {
         Ok(Ok(v)) => {
             let mut s = String::from("OK");
@@ -466,7 +814,7 @@ fn one_read(cx: &mut Ctx, pat: &str, objs: &[(String, Vec<Rec>)]) {
         Err(_) => "PANIC".into(),
     };
     let listing = st.take_listing();
-    let expected: Vec<Rec> = last.iter().filter(|(k, _)| ref_match(pat, k)).flat_map(|(_, v)| v.clone()).collect();
+    let expected: Vec<T> = last.iter().filter(|(k, _)| ref_match(pat, k)).flat_map(|(_, v)| v.clone()).collect();
     let nmatch = last.keys().filter(|k| ref_match(pat, k)).count();
     let i = cx.case(req, ans, nmatch >= 2);
     for p in listing.iter().flatten() {
@@ -475,8 +823,9 @@ fn one_read(cx: &mut Ctx, pat: &str, objs: &[(String, Vec<Rec>)]) {
         }
     }
     cx.count(&format!("read:matching-objects={}", nmatch.min(4)));
+    cx.count(&format!("read:record-type={}", T::NAME));
     match &r {
-        Ok(Ok(v)) if *v == expected => {}
+        Ok(Ok(v)) if same_vec(v, &expected) => {}
         Ok(Ok(v)) => cx.oracle_fail(i, "glob-read-not-sorted-concatenation", format!("pattern {pat:?}: got {} records, expected {}", v.len(), expected.len())),
         Ok(Err(k)) => cx.oracle_fail(i, "glob-read-error", format!("pattern {pat:?}: {k}")),
         Err(m) => cx.oracle_fail(i, "glob-read-panics", format!("pattern {pat:?}: {m}")),
@@ -631,6 +980,91 @@ fn gen_recs(cx: &mut Ctx) -> Vec<Rec> {
     (0..n).map(|_| gen_rec(cx)).collect()
 }
 
+/// finite f64 of every kind (the generator of c09.rs): dyadic rationals, integers, powers of two over the whole
+/// exponent range, 17-significant-digit values, subnormals, extremes, signed zero, arbitrary finite bit patterns
+fn gen_f64(cx: &mut Ctx) -> f64 {
+    match cx.rng.below(14) {
+        0 => 0.0,
+        1 => -0.0,
+        2 => 1.0,
+        3 => (cx.rng.range(-1_000_000, 1_000_000) as f64) / f64::from(1u32 << cx.rng.below(11)),
+        4 => 2.0f64.powi(cx.rng.range(-1074, 1023) as i32) * if cx.rng.chance(1, 2) { -1.0 } else { 1.0 },
+        5 => cx.rng.range(-999_999_999_999_999, 999_999_999_999_999) as f64,
+        6 => -0.5,
+        7 => (cx.rng.range(-4096, 4096) as f64) * 0.25,
+        8 => *cx.rng.pick(&[4226558646762882.0, 1.1368683772161603e-13, 0.30000000000000004, 5e-324, f64::MAX, f64::MIN, f64::MIN_POSITIVE, 1.7976931348623155e308, 9007199254740993.0, 0.1, 1e23, 2.2250738585072011e-308]),
+        9 | 10 | 11 => loop {
+            let x = f64::from_bits(cx.rng.next_u64());
+            if x.is_finite() {
+                break x;
+            }
+        },
+        12 => (cx.rng.next_u64() >> 11) as f64 / (1u64 << 53) as f64,
+        _ => (cx.rng.range(-999_999_999_999_999, 999_999_999_999_999) as f64) * 1e-7,
+    }
+}
+
+/// finite f32 of every kind (read back through `f64` and a cast: the values where that could matter)
+fn gen_f32(cx: &mut Ctx) -> f32 {
+    match cx.rng.below(10) {
+        0 => 0.0,
+        1 => -0.0,
+        2 => *cx.rng.pick(&[1.0f32, 0.1, 0.3, 16777217.0, f32::MAX, f32::MIN, f32::MIN_POSITIVE, f32::EPSILON, 1e-45, 3.4028233e38, 1.17549421e-38, 8.589973e9, 7.038531e-26]),
+        3 => 2.0f32.powi(cx.rng.range(-149, 127) as i32) * if cx.rng.chance(1, 2) { -1.0 } else { 1.0 },
+        4 => (cx.rng.range(-100_000, 100_000) as f32) / 64.0,
+        5 => gen_f64(cx) as f32,
+        _ => loop {
+            let x = f32::from_bits(cx.rng.next_u64() as u32);
+            if x.is_finite() {
+                break x;
+            }
+        },
+    }
+}
+
+fn finite32(x: f32) -> f32 {
+    if x.is_finite() { x } else { f32::MAX }
+}
+
+/// a finite float record
+fn gen_recf(cx: &mut Ctx) -> RecF {
+    let n = cx.rng.below(4);
+    RecF {
+        x: gen_f64(cx),
+        o: if cx.rng.chance(1, 2) { Some(gen_f64(cx)) } else { None },
+        v: (0..n).map(|_| finite32(gen_f32(cx))).collect(),
+    }
+}
+
+fn gen_nonfinite64(cx: &mut Ctx) -> f64 {
+    match cx.rng.below(5) {
+        0 => f64::INFINITY,
+        1 => f64::NEG_INFINITY,
+        2 => f64::NAN,
+        3 => -f64::NAN,
+        _ => f64::from_bits(0x7ff0_0000_0000_0001 | (cx.rng.next_u64() & 0x800f_ffff_ffff_ffff)), // a NaN with a payload
+    }
+}
+
+/// a float record holding at least one non-finite value, in the position chosen by `place`
+/// (0 = `x`, 1 = `o`, 2 = an element of `v`, 3 = several)
+fn gen_recf_nonfinite(cx: &mut Ctx, place: usize) -> RecF {
+    let mut r = gen_recf(cx);
+    let nf32 = |cx: &mut Ctx| *cx.rng.pick(&[f32::NAN, f32::INFINITY, f32::NEG_INFINITY]);
+    if place == 0 || place == 3 {
+        r.x = gen_nonfinite64(cx);
+    }
+    if place == 1 || (place == 3 && cx.rng.chance(1, 2)) {
+        r.o = Some(gen_nonfinite64(cx));
+    }
+    if place == 2 || (place == 3 && cx.rng.chance(1, 2)) {
+        let at = cx.rng.below(r.v.len() + 1);
+        let f = nf32(cx);
+        r.v.insert(at, f);
+    }
+    r
+}
+
 const STEMS: &[&str] = &[
     "data", "dir/data", "dir/", "", "dir/.", "a.b", "dir/..", "x.gz/file", "x.gz/", "x.gz/.", "d.d/e", "K", "İ", "dir/sub/.hidden", "日本/データ", "a b", "\n", "out.jsonl", "..", ".",
 ];
@@ -748,6 +1182,24 @@ pub fn run(cx: &mut Ctx) {
     one_match(cx, &"**/".repeat(6), &["x/".repeat(6), "x/".repeat(5), "xy/z/".repeat(6), "/".repeat(6)], false);
     for p in ["", "*", "**", "***", "****", "?", "a*", "*a", "a**b", "a.b", "[a]", "a\\b", "^$", "x{1}", "a|b", "(?s)", "\n", "é*日"] {
         one_re(cx, p);
+    }
+    // float-bearing records: values that came back 1 ULP off from JSONL before serde_json's `float_roundtrip`
+    // was enabled (DESIGN §8 #22), signed zero, subnormals, extremes; f32 read back through f64
+    let f1 = RecF { x: 4226558646762882.0, o: Some(1.1368683772161603e-13), v: vec![0.1, 16777217.0, -0.0, 1e-45, f32::MAX] };
+    let f2 = RecF { x: -0.0, o: Some(5e-324), v: vec![] };
+    let f3 = RecF { x: f64::MAX, o: None, v: vec![f32::MIN_POSITIVE, 0.3] };
+    for key in ["f.jsonl", "f.jsonl.gz", "f.ZST", "dir/.bz2", "f.xz"] {
+        one_jsonl(cx, key, &[f1.clone(), f2.clone(), f3.clone()]);
+        one_nf(cx, key, &[f1.clone(), f2.clone(), f3.clone()]);
+        one_jsonl(cx, key, &[0.1f64, -0.0, 5e-324, f64::MIN, 0.30000000000000004]);
+    }
+    // OUTSIDE the scope (audit-E, reproduced): `[1.5, NaN, inf]` as `x` -> write Ok, read Err; `Some(NaN)` -> `None`
+    let rx = |x: f64| RecF { x, o: None, v: vec![] };
+    for key in ["nf.jsonl", "nf.jsonl.gz"] {
+        one_nf(cx, key, &[rx(1.5), rx(f64::NAN), rx(f64::INFINITY)]);
+        one_nf(cx, key, &[RecF { x: 1.5, o: Some(1.5), v: vec![] }, RecF { x: 2.5, o: Some(f64::NAN), v: vec![0.5] }]);
+        one_nf(cx, key, &[RecF { x: 1.5, o: Some(f64::NEG_INFINITY), v: vec![0.5, f32::NAN] }]);
+        one_nf(cx, key, &[RecF { x: -0.0, o: Some(f64::INFINITY), v: vec![-0.0] }, rx(2.0)]);
     }
 
     // ---- (2) small-scope exhaustive ----------------------------------------------------------------
@@ -882,10 +1334,20 @@ pub fn run(cx: &mut Ctx) {
         };
         let ext = cx.rng.pick(&exts).clone();
         let key = format!("{stem}{ext}");
-        match cx.rng.below(6) {
+        match cx.rng.below(9) {
             0 => {
                 let n = cx.rng.below(6);
                 let recs: Vec<Rec2> = (0..n).map(|_| gen_rec2(cx)).collect();
+                one_jsonl(cx, &key, &recs);
+            }
+            6 | 7 => {
+                let n = cx.rng.below(8);
+                let recs: Vec<RecF> = (0..n).map(|_| gen_recf(cx)).collect();
+                one_jsonl(cx, &key, &recs);
+            }
+            8 => {
+                let n = cx.rng.below(8);
+                let recs: Vec<f64> = (0..n).map(|_| gen_f64(cx)).collect();
                 one_jsonl(cx, &key, &recs);
             }
             1 => {
@@ -904,17 +1366,84 @@ pub fn run(cx: &mut Ctx) {
             }
         }
     }
+    // ---- finite float records, few keys, longer vectors ---------------------------------------------------------
+    let rounds = cx.budget(700, 7000);
+    for _ in 0..rounds {
+        let key = *cx.rng.pick(&["f", "f.jsonl", "f.gz", "f.ZST", "d/f.bz2", "f.xz", "f.zstd", ".gzip"]);
+        let n = 1 + cx.rng.below(12);
+        if cx.rng.chance(1, 5) {
+            let recs: Vec<f64> = (0..n).map(|_| gen_f64(cx)).collect();
+            one_jsonl(cx, key, &recs);
+        } else {
+            let recs: Vec<RecF> = (0..n).map(|_| gen_recf(cx)).collect();
+            one_jsonl(cx, key, &recs);
+        }
+    }
+    // the scope assumption alone (no cloud call): `from_str(to_string(r))` bit for bit on many more float records
+    for _ in 0..cx.budget(20_000, 200_000) {
+        let r = gen_recf(cx);
+        if !validate_lawful(cx, &r).is_empty() {
+            cx.notes.push(format!("serde_json alone does not round-trip the finite float record {r:?} (bits x={:#x})", r.x.to_bits()));
+        }
+    }
+
+    // ---- the float stream given structurally: finite vectors (round-trip oracle) and the NON-FINITE ones ------
+    let rounds = cx.budget(500, 5000);
+    for _ in 0..rounds {
+        let stem = (*cx.rng.pick(STEMS)).to_string();
+        let ext = cx.rng.pick(&exts).clone();
+        let key = format!("{stem}{ext}");
+        let n = 1 + cx.rng.below(5);
+        let scenario = cx.rng.below(6); // 0: all finite; 1: `x`; 2: only behind `Option`; 3: in the `Vec`; 4, 5: several
+        let bad_at = cx.rng.below(n);
+        let recs: Vec<RecF> = (0..n)
+            .map(|j| {
+                if scenario == 0 {
+                    gen_recf(cx)
+                } else if scenario >= 4 {
+                    if cx.rng.chance(1, 2) { let pl = cx.rng.below(4); gen_recf_nonfinite(cx, pl) } else { gen_recf(cx) }
+                } else if j == bad_at {
+                    gen_recf_nonfinite(cx, scenario - 1)
+                } else {
+                    gen_recf(cx)
+                }
+            })
+            .collect();
+        one_nf(cx, &key, &recs);
+    }
+
+    // ---- one LARGE object per codec and plain (oracle only) --------------------------------------------------
+    let big_exts: &[&str] = if cx.tier == crate::ctx::Tier::Quick { &["", ".gz", ".zst", ".bz2", ".xz"] } else { &["", ".jsonl", ".gz", ".GZIP", ".zst", ".Zstd", ".bz2", ".bzip2", ".xz", ".XZ"] };
+    let target: usize = if cx.tier == crate::ctx::Tier::Quick { 2 << 20 } else { 4 << 20 };
+    let big = gen_big_recs(cx, target);
+    let mid = gen_big_recs(cx, 300 << 10);
+    for ext in big_exts {
+        one_big(cx, ext, &big);
+        one_big(cx, ext, &mid);
+    }
+    cx.exhaustive_blocks.push(format!(
+        "large objects: one vector of {} records = {} bytes of JSONL (random 64-symbol strings of 1-16 KiB, multi-byte characters, escapes, one line of {} KiB) and one of {} records = {} bytes, each written / read / read by glob under {} keys (plain and every codec); stored bytes decoded by the codec crate itself and compared with the JSONL text",
+        big.len(), expected_text(&big).len(), target / 10 / 1024, mid.len(), expected_text(&mid).len(), big_exts.len()
+    ));
+
     let rounds = cx.budget(600, 6000);
     for _ in 0..rounds {
         let no = 1 + cx.rng.below(7);
         let mut objs = vec![];
+        let mut fobjs = vec![];
+        let floats = cx.rng.chance(1, 4);
         for _ in 0..no {
             let dir = *cx.rng.pick(&["", "d/", "d/e/", "logs/2024-01-", "a.b/"]);
             let name = *cx.rng.pick(&["x", "y", "data", "part-0", "part-1", ".h", "", "é"]);
             let ext = *cx.rng.pick(&["", ".jsonl", ".jsonl.gz", ".GZ", ".zst", ".bz2", ".xz", ".gz"]);
             let n = cx.rng.below(4);
-            objs.push((format!("{dir}{name}{ext}"), (0..n).map(|_| gen_rec(cx)).collect::<Vec<_>>()));
+            if floats {
+                fobjs.push((format!("{dir}{name}{ext}"), (0..n).map(|_| gen_recf(cx)).collect::<Vec<_>>()));
+            } else {
+                objs.push((format!("{dir}{name}{ext}"), (0..n).map(|_| gen_rec(cx)).collect::<Vec<_>>()));
+            }
         }
+        let names: Vec<String> = if floats { fobjs.iter().map(|o| o.0.clone()).collect() } else { objs.iter().map(|o| o.0.clone()).collect() };
         let pat = match cx.rng.below(8) {
             0 | 6 => "**".to_string(),
             7 => "**.*".to_string(),
@@ -923,8 +1452,8 @@ pub fn run(cx: &mut Ctx) {
             3 => "**/*.g?".to_string(),
             4 => "d/**".to_string(),
             _ => {
-                if objs.is_empty() { "?".to_string() } else {
-                    let k = objs[cx.rng.below(objs.len())].0.clone();
+                if names.is_empty() { "?".to_string() } else {
+                    let k = names[cx.rng.below(names.len())].clone();
                     let cs: Vec<char> = k.chars().collect();
                     if cs.is_empty() { "*".to_string() } else {
                         let i = cx.rng.below(cs.len());
@@ -935,6 +1464,44 @@ pub fn run(cx: &mut Ctx) {
                 }
             }
         };
-        one_read(cx, &pat, &objs);
+        if floats {
+            one_read(cx, &pat, &fobjs);
+        } else {
+            one_read(cx, &pat, &objs);
+        }
     }
+
+    // ---- the scope assumption and the other `Lawful` hypotheses, as validated in this run ----------------------
+    let mut types: BTreeSet<String> = BTreeSet::new();
+    for k in cx.stats.keys() {
+        if let Some(rest) = k.strip_prefix("lawful:") {
+            if let Some(t) = rest.split(':').next() {
+                if t != "codec" {
+                    types.insert(t.to_string());
+                }
+            }
+        }
+    }
+    for t in types {
+        let mut parts = vec![];
+        for f in ["ser_no_nl", "ser_no_cr", "ser_not_blank", "de_ser"] {
+            let ok = cx.stats.get(&format!("lawful:{t}:{f}=ok")).copied().unwrap_or(0);
+            let bad = cx.stats.get(&format!("lawful:{t}:{f}=VIOLATED")).copied().unwrap_or(0);
+            parts.push(format!("{f} {ok}/{}", ok + bad));
+        }
+        cx.notes.push(format!("Lawful hypotheses validated on the real serde_json for record type `{t}` (satisfied/tested values): {}", parts.join(", ")));
+    }
+    let mut parts = vec![];
+    for c in ["plain", "gzip", "zstd", "bzip2", "xz"] {
+        let ok = cx.stats.get(&format!("lawful:codec:{c}:stored-decodes-to-written-text=ok")).copied().unwrap_or(0);
+        let bad = cx.stats.get(&format!("lawful:codec:{c}:stored-decodes-to-written-text=VIOLATED")).copied().unwrap_or(0);
+        parts.push(format!("{c} {ok}/{}", ok + bad));
+    }
+    cx.notes.push(format!("codec law (`dec_enc`, with the codec crates' own decoders on the stored objects; satisfied/tested objects): {}", parts.join(", ")));
+    let nf: u64 = cx.stats.iter().filter(|(k, _)| k.starts_with("nf:vector=nonfinite")).map(|(_, v)| *v).sum();
+    let nf_odd: u64 = cx.stats.iter().filter(|(k, _)| k.starts_with("nf:vector=nonfinite") && k.contains("NOT as documented")).map(|(_, v)| *v).sum();
+    let out_ok = cx.stats.get("scope:float-struct:nonfinite-record:de_ser=violated by serde_json alone (why it is out of scope)").copied().unwrap_or(0);
+    let out_odd = cx.stats.get("scope:float-struct:nonfinite-record:de_ser=holds (UNEXPECTED)").copied().unwrap_or(0);
+    cx.notes.push(format!("SCOPE: of the {} generated records holding a NaN/+-inf, serde_json alone (`from_str(to_string(r))`) failed to return {out_ok} and returned {out_odd} unchanged: the scope assumption `de_ser` is false exactly there", out_ok + out_odd));
+    cx.notes.push(format!("SCOPE: {nf} record vectors holding NaN/+-inf (outside JSON's value space) were written and read in the separate CLOUDNF stream; {} behaved as documented (write Ok; read Err, or Ok with None behind Option), {nf_odd} did not; they are compared model-vs-real and not judged by the round-trip oracle", nf - nf_odd));
 }
